@@ -63,6 +63,7 @@ class CursorAnalysis:
         self.ends = {}            # cursor var id -> set(end keys)
         self.obligations = []
         self.call_facts = []      # (callee qname, {(i, j): proved})
+        self.call_wire = []       # (callee qname, {(i, j): cursor bounded by an end-pointer parameter}, line)
         self.call_ends = []       # (callee qname, {(cursor arg, end arg): (lower bound, covered int args)})
         self.call_tracked = []    # (callee qname, {argument indexes receiving a tracked cursor})
         self.pidx = {p.get("id"): i for i, p in enumerate(fn.params)}
@@ -1059,6 +1060,7 @@ class CursorAnalysis:
         # what the call site proves about (pointer, length) argument pairs
         for t in targets:
             proved = {}
+            wire = {}
             for i, a in enumerate(args):
                 p = strip(a)
                 cid = self.pbase(p) if p is not None else None
@@ -1080,7 +1082,12 @@ class CursorAnalysis:
                             else:
                                 ok = ok or z.diff_upper(self.keys[n[0]], ii) + n[1] + off[1] <= 0
                     proved[(i, j)] = ok
+                    # is the cursor a wire cursor: bounded by an end pointer that is a parameter of this function
+                    pids = set(p_.get("id") for p_ in self.fn.params)
+                    wire[(i, j)] = any(e_[0] == "v" and (e_[1] in pids or (isinstance(e_[1], tuple) and e_[1][-1] in pids))
+                                       for e_ in self.ends.get(cid, ()))
             self.call_facts.append((t.qname, proved, self._ln))
+            self.call_wire.append((t.qname, wire, self._ln))
             # (cursor, end) argument pairs: constant lower bound of A and the integer arguments it covers
             ends_proved = {}
             for i, a in enumerate(args):
@@ -1265,6 +1272,7 @@ class CursorAnalysis:
         # final pass: record obligations with the stable states
         self.obligations = []
         self.call_facts = []
+        self.call_wire = []
         self.call_ends = []
         self.call_tracked = []
         for b in fn.blocks:
